@@ -1,5 +1,6 @@
 import NflowsModel.Audit.Tool
 import NflowsModel.Properties.C16
 import NflowsModel.Properties.C16D
+import NflowsModel.Properties.C16M
 
 #audit_namespace Properties.C16
